@@ -203,6 +203,15 @@ inline const char* classify(int fn, T x, T y, double err = 0)
     return "unclassified";
 }
 
+// classes for the C12 domain sweep (named predicates of open findings would go here)
+template <class T>
+inline const char* classify_domain(int fn, T x)
+{
+    (void)fn;
+    (void)x;
+    return "unclassified";
+}
+
 // algorithm switch points and thresholds of the current kernels (dense windows are sampled around them;
 // the log-uniform and binade streams cover everything else)
 static const double SWITCH_POINTS[] = {
